@@ -1,9 +1,15 @@
 package s0331
 
+type G1 struct {
+	F0x0 []int32
+}
+
+type G2 struct {
+	F2x0 uint32
+}
 
 type T struct {
-	F0 *int32
+	F0 G1
 	F1 []int64
-	F2 *uint32
-	F3 *uint64
+	F2 *G2
 }
